@@ -21,12 +21,14 @@ def name_configs():
     names = ['a', 'my_field', 'ab_cd_ef']
     specs = [dict(), dict(rename='x'), dict(aliases=['p']), dict(aliases=['p', 'NAME']), dict(in_names=['q', 'r']), dict(out_name='o'),
              dict(rename='x', out_name='o'), dict(aliases=['p'], out_name='o'), dict(in_names=['q'], out_name='o'),
-             dict(rename='x', aliases=['p']), dict(rename='x', in_names=['q']), dict(aliases=['p'], in_names=['q'])]
+             dict(rename='x', aliases=['p']), dict(rename='x', in_names=['q']), dict(aliases=['p'], in_names=['q']),
+             # a bare string is ONE name (aliases= and in_names= alike), not one name per character
+             dict(aliases='pq'), dict(in_names='qr'), dict(in_names='qr', out_name='o')]
     in_renames = [None, ['camel'], ['snake', 'kebab'], ['pascal', 'scream', 'camel']]
     out_renames = [None, 'camel', 'pascal', 'scream', 'kebab', 'snake']
     for n, sp, ir, orr in itertools.product(names, specs, in_renames, out_renames):
         sp = dict(sp)
-        if 'aliases' in sp:
+        if 'aliases' in sp and not isinstance(sp['aliases'], str):
             sp['aliases'] = [n if a == 'NAME' else a for a in sp['aliases']]
         yield n, sp, ir, orr
 
@@ -47,6 +49,7 @@ def render_names(n, sp, ir, orr, obs):
         return 'None' if x is None else f'(Some {coq_str(x)})'
 
     def olist(x):
+        x = [x] if isinstance(x, str) else x
         return 'None' if x is None else '(Some [' + '; '.join(coq_str(s) for s in x) + '])'
     spec = f'(mkSpec {ostr(sp.get("rename"))} {olist(sp.get("in_names"))} {olist(sp.get("aliases"))} {ostr(sp.get("out_name"))})'
     irc = 'None' if ir is None else '(Some [' + '; '.join(STYLE[s] for s in ir) + '])'
@@ -67,12 +70,13 @@ def names_spec(n, sp, ir, orr):
         return ('TypeError',)
     out = sp.get('out_name') or sp.get('rename') or (canonical(ws, orr) if orr else n)
     base = [canonical(ws, s) for s in ir] if ir is not None else [n]
+    one = lambda x: [x] if isinstance(x, str) else list(x)      # noqa: E731
     if 'rename' in sp:
         ins = [sp['rename']]
     elif 'aliases' in sp:
-        ins = base + [a for a in sp['aliases'] if a not in base]
+        ins = base + [a for a in one(sp['aliases']) if a not in base]
     elif 'in_names' in sp:
-        ins = list(sp['in_names'])
+        ins = one(sp['in_names'])
     else:
         ins = base
     return ('ok', ins, out)
@@ -198,8 +202,8 @@ def run(ctx, out):
     out.evaluations += _fampb.positional_bounds_family(out, PROP)
     import families, random as _random
     out.evaluations += families.noninit_tuple_family(out, PROP, _random.Random(ctx['seed']))
-    out.rule = ('(1) EXHAUSTIVE name derivation: 3 field names x 12 field-option sets (rename / aliases / in_names / out_name and the refused '
-                'combinations) x 4 class input-style lists x 6 output styles = 864 cells, FieldSpec.make_field compared with the Coq model '
+    out.rule = ('(1) EXHAUSTIVE name derivation: 3 field names x 15 field-option sets (rename / aliases / in_names / out_name and the refused '
+                'combinations) x 4 class input-style lists x 6 output styles = 1080 cells, FieldSpec.make_field compared with the Coq model '
                 'inside coqc and with an independent reading of the documentation; (2) EXHAUSTIVE decision table on a 3-field class family '
                 '(7 naming configurations x 4 layout configurations x allow_extra): every input name binds, other names do not, duplicates, '
                 'unknown keys vs allow_extra, missing required, wrong value kind, sequences by length and layout, text / bytes / scalars, '
@@ -220,7 +224,7 @@ def run(ctx, out):
     else:
         bad, errs = run_shards(PROP, 'names', 'From Coq Require Import List String.\nImport ListNotations.\nRequire Import Base.Styles Model.FieldNames Run.AgreeNames.\nOpen Scope string_scope.\n',
                                items, lambda it: render_names(*it), per=300, final='names_mismatches', ty='list names_case')
-        out.oblige('corr_names: model make_field_names = FieldSpec.make_field on all 864 configurations', not bad and not errs,
+        out.oblige('corr_names: model make_field_names = FieldSpec.make_field on all 1080 configurations', not bad and not errs,
                    f'{len(bad)} mismatches, {len(errs)} shard errors')
         for e in errs[:1]:
             out.violation('C15:corr_names:shard-error', 'shard failed: ' + e[:400], {'correspondence': 'corr_names', 'error': e[:1500]}, no_input=True)
